@@ -87,6 +87,7 @@ type SignerOptions struct {
 	BackendURL string
 	ChainID    *int64 // nil: not configured, the proxy discovers it with net_version
 	Keys       []WalletKey
+	Decoys     []Decoy // further wallet entries that are listed but must never sign (see Decoy)
 	LogLevel   string        // default "info" (the start-up confirmation reads the listening line)
 	StartWait  time.Duration // default 60 s
 }
@@ -203,6 +204,9 @@ func StartSigner(o SignerOptions) (*Signer, error) {
 	}
 	walletDir := filepath.Join(o.Dir, "wallet")
 	if err := WriteWallet(walletDir, o.Keys, ".key.json", ".pwd"); err != nil {
+		return nil, err
+	}
+	if err := WriteDecoys(walletDir, o.Keys, o.Decoys, ".key.json", ".pwd"); err != nil {
 		return nil, err
 	}
 	var lastErr error
